@@ -1,6 +1,6 @@
 (* Props/C06_lemmas.v — witnesses and glue for Props/C06.v *)
 From stdpp Require Import gmap list.
-From Aldrin Require Import gen.ClientConsts Broker.Model Proto.ClientView Proto.ListenerProofs Proto.Flow.
+From Aldrin Require Import gen.ClientConsts Broker.Model Proto.ClientView Proto.ListenerProofs Proto.ChanEndsProofs Proto.Flow.
 Local Open Scope N_scope.
 
 Definition unchanged_flags : flags := {| fl_refused_closed := false; fl_close_asserts := true; fl_cancel := true |}.
@@ -57,6 +57,36 @@ Lemma listeners_ok k ops : exists z, lrun k lcreated ops = LOk z.
 Proof.
   pose proof (listeners_never_rejected k ops) as H.
   destruct (lrun k lcreated ops); try contradiction. eexists. reflexivity.
+Qed.
+
+(* the positive theorem in terms of outcomes only *)
+Definition never_bad (r : cres) : Prop := (forall c, r <> CReject c) /\ (forall c site, r <> CPanic c site).
+
+Lemma channel_ends_positive fl :
+  fl_refused_closed fl = true -> fl_cancel fl = false ->
+  forall k c0 ec others sched, never_bad (run fl (created k c0 ec others) sched).
+Proof.
+  intros H1 H2 k c0 ec others sched. pose proof (channel_ends_safe k fl H1 H2 c0 ec others sched) as H.
+  split; intros; intros E; rewrite E in H; exact H.
+Qed.
+
+(* whichever shape the translator reads from unclaimed.rs / client.rs: with the repaired error path
+   the positive theorem (every claim awaited); with the shape of the pinned commit the witness *)
+Definition this_tree_statement (refused_closed asserts : bool) : Prop :=
+  if refused_closed
+  then forall k c0 ec others sched,
+         never_bad (run {| fl_refused_closed := true; fl_close_asserts := asserts; fl_cancel := false |} (created k c0 ec others) sched)
+  else if asserts
+       then exists sched, run {| fl_refused_closed := false; fl_close_asserts := true; fl_cancel := false |}
+                              (created 7 1 CSender []) sched = CPanic 1 S_CLOSE_ABSENT
+       else cres_ok (run {| fl_refused_closed := false; fl_close_asserts := false; fl_cancel := false |}
+                         (created 7 1 CSender []) w_refused_claim) = true.
+
+Lemma this_tree_by_shape a b : this_tree_statement a b.
+Proof.
+  destruct a.
+  - intros k c0 ec others sched. apply channel_ends_positive; reflexivity.
+  - destruct b; [exists w_refused_claim; vm_compute; reflexivity|vm_compute; reflexivity].
 Qed.
 
 (* whichever shape the translator reads: the F1 witness panics exactly on (refused end dropped
